@@ -157,6 +157,12 @@ func e2Family(tier string, amevs []int64) []*Job {
 				jobs = append(jobs, job(e2scen(fmt.Sprintf("E2-restarted-speaker-own-payloads-N4-x%d-%s-%s", x, role, an), 4, x, a, s13), per))
 			}
 			if x == other && a >= 0 {
+				// pre-commits that the application's payload verifier refuses (bad witness, well-formed data) arrive while
+				// a proposed transaction is still missing, then the transaction arrives
+				s14 := E2Spec{Views: 1, Proposals: "A", TxA: []H{103}, Responses: "A", PreCommits: "AW", NoTimeout: true, MaxDepth: 9, StateCap: cap1}
+				jobs = append(jobs, job(e2scen(fmt.Sprintf("E2-refused-precommit-while-tx-missing-N4-x%d-%s-%s", x, role, an), 4, x, a, s14), per))
+			}
+			if x == other && a >= 0 {
 				// the pre-block is processed on M pre-commits of view 0 before X itself pre-committed, then the view
 				// changes (possible only with more than F faulty members or restarts, which a single node cannot know):
 				// in view 1 X still needs M pre-commits of *that* view before it may commit
